@@ -24,7 +24,13 @@ func TestC02Live(t *testing.T) {
 			PreludeMs:    rapid.SampledFrom([]int{0, 0, 2500}).Draw(rt, "prelude_ms"),
 			FirstDelayMs: rapid.SampledFrom([]int{0, 0, 1300}).Draw(rt, "first_delay_ms"),
 		}
-		st, err := runLive(c)
+		if rapid.IntRange(0, 3).Draw(rt, "slow_udp_publisher") == 0 {
+			c.Transport, c.Mode, c.Media, c.PreludeMs, c.FirstDelayMs = "udp", "record", true, 2500, 1300
+		}
+		st, err := pbt.Safe(runLive, c)
+		if st == nil {
+			st = &liveStats{}
+		}
 		labels := []string{c.Transport + "/" + c.Mode}
 		if st.ExpectedAlive {
 			labels = append(labels, "peer-alive")
